@@ -321,6 +321,18 @@ func checkC12(c *Ctx) {
 	}
 	// functional plugins take part through a fixed hand-written file
 	pkgs = append(pkgs, pkgSrc{"functional", map[string]string{"go.mod": pgen.GoMod, "p/p.go": c12Functional}})
+	// packages whose ONLY pending call after the first pass is one nested call of one plugin: nothing else
+	// keeps the generate / reload loop going
+	for name, body := range map[string]string{
+		"nested-only-sort":    "func ks(m map[string]int) []string { return deriveSort(deriveKeys(m)) }",
+		"nested-only-equal":   "type T struct{ L []int }\n\nfunc same(a *T) bool { return deriveEqual(deriveClone(a), a) }",
+		"nested-only-fmap":    "func f(k string) int { return len(k) }\n\nfunc lens(m map[string]bool) []int { return deriveFmap(f, deriveKeys(m)) }",
+		"nested-only-uncurry": "func add(a, b int) int { return a + b }\n\nfunc same() func(int, int) int { return deriveUncurry(deriveCurry(add)) }",
+		"nested-only-min":     "func smallest(m map[int]string) int { return deriveMin(deriveKeys(m), 0) }",
+		"nested-only-unique":  "type T struct{ L []int }\n\nfunc u(l []*T) int { return len(deriveUnique(deriveSort(l))) }",
+	} {
+		pkgs = append(pkgs, pkgSrc{name, map[string]string{"go.mod": pgen.GoMod, "p/p.go": "package p\n\n" + body + "\n"}})
+	}
 
 	pms := c12PrefixMaps()
 	orders := []string{""}
